@@ -169,9 +169,9 @@ class C48(Prop):
                 yield {'ops': [dict(o) for o in ops]}
         # long numbered histories: run numbers with different digit counts (>= 10 runs), then the runN link goes
         # missing (latest run cleaned / link removed / clean runN) possibly with older runs cleaned, then more installs
-        for _ in range({'quick': 5, 'thorough': 40, 'search': 60}[tier]):
+        for _ in range({'quick': 5, 'thorough': 30, 'search': 50}[tier]):
             yield self.long_case(rng)
-        n_rand = {'quick': 130, 'thorough': 1200, 'search': 2500}[tier]
+        n_rand = {'quick': 130, 'thorough': 800, 'search': 2000}[tier]
         for _ in range(n_rand):
             yield self.random_case(rng, long=(tier != 'quick'))
 
